@@ -1088,15 +1088,17 @@ Proof.
   rewrite has_cont_cunion. cbn [cunion cT]. split; intros H; rewrite H; reflexivity.
 Qed.
 
-Lemma consC_B cp b cons tl cb r K1 K2 Rb R2 :
+Lemma consC_B cp b cons tl cb r K1 K2 Rb R2 (f : st -> st) :
   okBl cons cb Rb -> okAl cons K1 -> okBl cons (csem_l b) Rb -> cb = csem_l b ->
   okBc tl (snd (csem_c r)) R2 -> okAc tl K2 ->
   (forall k, In k K1 -> ~ In k R2) -> (forall k, In k K2 -> ~ In k Rb) ->
-  okBc (consC (visit_caseG fx cp b cons) tl)
+  (forall y, s_end (sc (f y)) = s_end (sc y)) ->
+  okBc (consC (fun y => visit_caseG fx cp b cons (f y)) tl)
        (cunion (if cN cb then cunion (cset_N false cb) (fst (csem_c r)) else cb) (snd (csem_c r)))
        (Rb ++ R2).
 Proof.
-  intros HB HA HB' Ecb HT HTA D12 D21 y Hl. unfold consC.
+  intros HB HA HB' Ecb HT HTA D12 D21 Hfe y0 Hl0. unfold consC.
+  set (y := f y0). assert (Hl : lv y) by (unfold lv, y; rewrite Hfe; exact Hl0).
   destruct (case_B cp b cons cb Rb HB y Hl) as [E1 [F1 [T1 [N1 [A1 G1]]]]].
   destruct (case_A cp b cons K1 Rb HA HB' y) as [_ [_ Hk1]].
   destruct (visit_caseG fx cp b cons y) as [[y1 r1] lg1]. cbn [g_st g_rs g_lg fst snd] in *.
@@ -1105,7 +1107,7 @@ Proof.
   destruct (tl y1) as [[y2 rs] lg2]. cbn [c_st c_rs c_lg fst snd] in *.
   destruct (fst_snd_csem_c r) as [FS1 FS2].
   dsplit.
-  - rewrite E2. exact E1.
+  - rewrite E2, E1. unfold y. apply Hfe.
   - rewrite has_cont_cunion. intros Hb. apply orb_true_iff in Hb. destruct Hb as [Hb|Hb]; [|apply F2; exact Hb].
     destruct (cN cb); [|apply M2, F1; exact Hb].
     rewrite has_cont_cunion, has_cont_cset_N in Hb. apply orb_true_iff in Hb. destruct Hb as [Hb|Hb]; [apply M2, F1; exact Hb | apply F2, FS1; exact Hb].
@@ -1139,14 +1141,16 @@ Proof.
   match goal with |- mono _ (if ?b then _ else _) => destruct b end; [apply mono_mark | eapply mono_trans; [apply mono_mark | apply mono_set_end]].
 Qed.
 
-Lemma switch_B p cs opc ca R :
-  okBc opc ca R ->
+Lemma switch_B p cs opc ca R tt :
+  okBc opc ca R -> (forall y, lv y -> tt = true -> s_mt (sc (c_st (opc y))) = true) ->
   okB (visit_switchG p cs opc)
-      {| cN := cN ca || cB0 ca || negb (has_default cs); cR := cR ca; cT := cT ca; cB0 := false; cC0 := cC0 ca;
+      {| cN := cN ca || cB0 ca || negb (has_default cs); cR := cR ca; cT := cT ca || tt; cB0 := false; cC0 := cC0 ca;
          cBL := cBL ca; cCL := cCL ca |} R.
 Proof.
-  intros H x Hl. unfold visit_switchG. destruct (H x Hl) as [E1 [F1 [T1 [N1 [A1 G1]]]]].
+  intros H Htt x Hl. unfold visit_switchG. destruct (H x Hl) as [E1 [F1 [T0 [N1 [A1 G1]]]]]. specialize (Htt x Hl).
   destruct (opc x) as [[x1 rs] lg]. cbn [g_st g_rs g_lg c_st c_rs c_lg fst snd] in *.
+  assert (T1 : cT ca || tt = true -> s_mt (sc x1) = true).
+  { intros Hb. apply orb_true_iff in Hb. destruct Hb as [Hb|Hb]; [apply T0; exact Hb | apply Htt; exact Hb]. }
   assert (Hl1 : live (s_end (sc x1)) = true) by (rewrite E1; exact Hl).
   set (e := switch_end (switch_forcedG rs (Some (Forced false false false))) (has_default cs)).
   assert (HF : is_forced e = true -> cN ca || cB0 ca || negb (has_default cs) = false).
@@ -1433,6 +1437,49 @@ Qed.
 Lemma reach_keys_l : (forall l k, In k (reach_l l) -> In k (keys_l l)) /\ True.
 Proof. split; [apply reach_keys | exact I]. Qed.
 
+(* the test of a case is visited in the scope of the switch, before the case's child scope *)
+Lemma end_visit_test t y : s_end (sc (visit_test t y)) = s_end (sc y).
+Proof. destruct t; [apply end_visit_e | reflexivity]. Qed.
+Lemma mono_visit_test t y : mono y (visit_test t y).
+Proof. destruct t; [apply mono_visit_e | apply mono_refl]. Qed.
+Lemma okA_pre g K (f : st -> st) : okA g K -> (forall y, mono y (f y)) -> okA (fun y => g (f y)) K.
+Proof. intros H Hf y. destruct (H (f y)) as [A [B C]]. dsplit; [eapply mono_trans; [apply Hf | exact A] | exact B | exact C]. Qed.
+
+Lemma end_visit_caseG cp b g y : s_end (sc (g_st (visit_caseG fx cp b g y))) = s_end (sc y).
+Proof. unfold visit_caseG. destruct (g (child_enter KCase y)) as [[c tops] lg]. reflexivity. Qed.
+Lemma mono_visit_caseG cp b g y : mono y (g_st (visit_caseG fx cp b g y)).
+Proof.
+  unfold visit_caseG. destruct (g (child_enter KCase y)) as [[c tops] lg]. cbn [g_st fst].
+  eapply mono_trans; [apply (mono_child_exit KCase cp y c)|]. eapply mono_trans; [apply mono_mark | apply mono_set_end].
+Qed.
+
+Lemma anG_cases_step cp t ft b r y :
+  anG_cases fx (CCons cp t ft b r) y = consC (fun y => visit_caseG fx cp b (anG_list fx b) (visit_test t y)) (anG_cases fx r) y.
+Proof. reflexivity. Qed.
+
+Lemma mono_cases cs : forall y, mono y (c_st (anG_cases fx cs y)).
+Proof.
+  induction cs as [|cp t ft b r IH]; intros y; [apply mono_refl|]. rewrite anG_cases_step. unfold consC.
+  pose proof (mono_visit_caseG cp b (anG_list fx b) (visit_test t y)) as M1.
+  destruct (visit_caseG fx cp b (anG_list fx b) (visit_test t y)) as [[y1 r1] lg1]. cbn [g_st fst] in M1.
+  specialize (IH y1). destruct (anG_cases fx r y1) as [[y2 rs] lg2]. cbn [c_st fst] in *.
+  eapply mono_trans; [apply mono_visit_test|]. eapply mono_trans; eassumption.
+Qed.
+
+(* a case test that is a call is recorded in may_throw (P5 for the tests) *)
+Lemma tests_mt cs : forall y, lv y -> tests_throw cs = true -> s_mt (sc (c_st (anG_cases fx cs y))) = true.
+Proof.
+  induction cs as [|cp t ft b r IH]; intros y Hl Ht; [discriminate|]. rewrite anG_cases_step. unfold consC.
+  pose proof (mono_visit_caseG cp b (anG_list fx b) (visit_test t y)) as M1.
+  pose proof (end_visit_caseG cp b (anG_list fx b) (visit_test t y)) as E1.
+  destruct (visit_caseG fx cp b (anG_list fx b) (visit_test t y)) as [[y1 r1] lg1]. cbn [g_st fst] in M1, E1.
+  pose proof (mono_cases r y1) as M2. specialize (IH y1).
+  destruct (anG_cases fx r y1) as [[y2 rs] lg2]. cbn [c_st fst] in *.
+  cbn [tests_throw] in Ht. apply orb_true_iff in Ht. destruct Ht as [Ht|Ht].
+  - destruct t as [[i|i| |]|]; try discriminate. apply M2, M1. cbn [visit_test]. apply mt_visit_e_throws; [exact Hl | reflexivity].
+  - apply IH; [|exact Ht]. unfold lv. rewrite E1, end_visit_test. exact Hl.
+Qed.
+
 Lemma okA_ext op op' K : (forall x, op x = op' x) -> okA op' K -> okA op K.
 Proof. intros E H x. rewrite E. apply H. Qed.
 Lemma okB_ext op op' c R : (forall x, op x = op' x) -> okB op' c R -> okB op c R.
@@ -1705,7 +1752,7 @@ Proof.
       * cbn [keys]. apply incl_tl, incl_refl.
       * left. reflexivity.
     + intros ls. eapply okB_ext; [intros x; reflexivity|]. eapply (wrap_B _ (visit_switchG p cs (anG_cases fx cs)) (keys_c cs)).
-      * apply switch_B. exact Bc.
+      * apply switch_B; [exact Bc | apply tests_mt].
       * apply switch_A. exact Ac.
       * intros k Hk E. cbn [pos] in E. subst k. apply Hp. exact Hk.
   - (* SLabel *) intros p l b IHb Hn. cbn [keys] in Hn. apply NoDup_cons_inv in Hn. destruct Hn as [Hp Hn].
@@ -1737,13 +1784,15 @@ Proof.
     apply NoDup_app_inv in Hn. destruct Hn as [Hnb [Hnr Hdis]].
     destruct (IHb Hnb) as [Ab Bb]. destruct (IHr Hnr) as [Ar Br].
     split.
-    + eapply okAc_ext; [|eapply okAc_weak; [apply (consC_A (visit_caseG fx cp b (anG_list fx b)) (anG_cases fx r) _ _ (case_A cp b _ _ _ Ab Bb) Ar)|]].
-      * intros x. cbn [anG_cases]. unfold consC. reflexivity.
+    + eapply okAc_ext; [|eapply okAc_weak; [apply (consC_A (fun y => visit_caseG fx cp b (anG_list fx b) (visit_test d y)) (anG_cases fx r) _ _
+                                                   (okA_pre _ _ (visit_test d) (case_A cp b _ _ _ Ab Bb) (mono_visit_test d)) Ar)|]].
+      * intros x. apply anG_cases_step.
       * cbn [keys_c]. apply incl_tl, incl_refl.
-    + eapply okBc_ext; [|apply (consC_B cp b (anG_list fx b) (anG_cases fx r) (csem_l b) r _ _ _ _ Bb Ab Bb eq_refl Br Ar)].
-      * intros x. cbn [anG_cases]. unfold consC. reflexivity.
+    + eapply okBc_ext; [|apply (consC_B cp b (anG_list fx b) (anG_cases fx r) (csem_l b) r _ _ _ _ (visit_test d) Bb Ab Bb eq_refl Br Ar)].
+      * intros x. apply anG_cases_step.
       * intros k Hk Hr. apply (Hdis k Hk). apply reach_keys. exact Hr.
       * intros k Hk Hr. apply (Hdis k); [apply reach_keys; exact Hr | exact Hk].
+      * apply end_visit_test.
 Qed.
 
 (* ------------------------------------------------------------------ *)
